@@ -5,7 +5,10 @@ M = "sqllineage.core.models."
 MODELS = ["modeltypes", "config", "models"]
 FUNCTIONS = ["sqllineage.core.holders.SubQueryLineageHolder.get_alias_mapping_from_table_group"] + [
     (M + c + m, MODELS) for c in ("Column.", "SubQuery.", "Table.") for m in ("__eq__", "__hash__")
-] + [(M + "Column." + f, MODELS + ["columns"]) for f in ("parent", "parent@setter", "to_source_columns")]
+] + [(M + "Column." + f, MODELS + ["columns"]) for f in ("parent", "parent@setter", "to_source_columns")] + [
+    # every relation that is read records its alias (an un-aliased table its own name), which is what lets the alias win
+    ("sqllineage.core.holders.SubQueryLineageHolder.add_read", ["modeltypes", "config", "metadata", "holders", "holders_c06"])
+]
 EXPLANATION = (
     "Invariance under renaming of statement-local names needs (a) that a local name is looked up only in its own scope and "
     "(b) that the identity of graph nodes does not depend on local names in a way that merges distinct things. (a) is the "
